@@ -230,6 +230,59 @@ example : (run (State.init 0) [.new [99], .add 0 .eph k1 v1, .add 0 .req k1 v1, 
   decide
 
 
+/-- `getOpID` as a function of the request header map alone. -/
+def opIdOf (m : AMap) : Obs := query ⟨m, [], []⟩ .opId
+
+/-- Quiescent consistency of the accessors. In EVERY state reached by ANY interleaving of the
+atomic operations, every derived accessor of a context is a function of the header maps the
+copying accessors return at that moment: Timeout()/ToContext decode `_timeout` of
+RequestHeaders(), CorrelationID() is `_cid`, getOpID parses `_opid`, the single-header getters
+look up the same maps and the FProtocol write path serialises exactly them. (The model has no
+second copy of any fact; the harness checks the same equalities on the real code after
+concurrent mutators and readers of one context have finished — kind `quiescent`.) -/
+theorem c17_accessors_agree_with_headers (start : Nat) (ops : List Op) (c : Nat) (mq mp me : AMap) :
+    let s := (run (State.init start) ops).1
+    (step s (.get c .req)).2 = .map mq → (step s (.get c .resp)).2 = .map mp → (step s (.get c .eph)).2 = .map me →
+    (step s (.read c .timeout)).2 = .dur (timeoutOf mq) ∧
+    (step s (.read c .toContext)).2 = .flag (decide (timeoutOf mq > 0)) ∧
+    (step s (.read c .cid)).2 = .val (some ((mq.get? cidHeader).getD [])) ∧
+    (step s (.read c .opId)).2 = opIdOf mq ∧
+    (step s (.read c .wireReq)).2 = .map mq ∧ (step s (.read c .wireResp)).2 = .map mp ∧
+    (∀ k, (step s (.read c (.header .req k))).2 = .val (mq.get? k)) ∧
+    (∀ k, (step s (.read c (.header .resp k))).2 = .val (mp.get? k)) ∧
+    (∀ k, (step s (.read c (.header .eph k))).2 = .val (me.get? k)) := by
+  intro s hq hp he
+  simp only [step, effect] at hq hp he ⊢
+  cases hv : view s c with
+  | none => simp [hv] at hq
+  | some v =>
+    simp only [hv, View.sel] at hq hp he ⊢
+    cases hq; cases hp; cases he
+    simp [query, View.sel, opIdOf]
+
+/-- A clone taken in any state agrees with its source on every derived fact: timeout,
+deadline, correlation id, every request header except `_opid`, every response header. -/
+theorem c17_clone_agrees_with_source (s : State) (c : Nat) (g : Bool) (x : Ctx) (h : WF s)
+    (hc : s.ctxs[c]? = some x) :
+    let s1 := (step s (.clone c g)).1
+    let j := s.ctxs.length
+    (step s1 (.read j .timeout)).2 = (step s (.read c .timeout)).2 ∧
+    (step s1 (.read j .toContext)).2 = (step s (.read c .toContext)).2 ∧
+    (step s1 (.read j .cid)).2 = (step s (.read c .cid)).2 ∧
+    (∀ k, k ≠ opIdHeader → (step s1 (.read j (.header .req k))).2 = (step s (.read c (.header .req k))).2) ∧
+    (∀ k, (step s1 (.read j (.header .resp k))).2 = (step s (.read c (.header .resp k))).2) := by
+  obtain ⟨vo, vc, h1, _, h3, _, _, h6, h7, _, h9⟩ := c17_clone_equal s c g x h hc
+  intro s1 j
+  have R1 : ∀ q, (step s1 (.read j q)).2 = query vc q := by
+    intro q; rw [(c17_reads_from_view s1 j q .req).1, show view s1 j = some vc from h3]
+  have R0 : ∀ q, (step s (.read c q)).2 = query vo q := by
+    intro q; rw [(c17_reads_from_view s c q .req).1, h1]
+  simp only [R1, R0, query, View.sel, h9, h7]
+  refine ⟨trivial, trivial, ?_, ?_, ?_⟩
+  · rw [h6 cidHeader (by decide)]
+  · intro k hk; rw [h6 k hk]
+  · intro k; trivial
+
 /-- **Lock discipline behind the model's atomic steps** (FContext), decided by the kernel on facts
 REGENERATED from lib/go's source on every check (harness/locks → FV/Generated/Locks.lean): no function
 calls, while it holds one of these mutexes, anything that (transitively) acquires the same mutex, no
@@ -243,5 +296,22 @@ theorem c17_lock_discipline :
 VALUE (`x := *c`) when that struct holds a mutex by value — a clone built from such a copy would start with
 the original's mutex in whatever state a concurrent reader or writer left it. -/
 theorem c17_no_lock_copied : FV.Generated.Locks.lockCopies = [] := by decide
+
+/-- **Fields are written under their lock** (regenerated from lib/go on every check): no method writes a field
+of a mutex-holding struct (FContext: the header maps and everything derived from them) while no mutex of that struct is write-held — by assignment, `++`, `delete` or an
+atomic store — unless the site is one of the hand-classified set-up / single-owner sites of
+`known/locks_unguarded_expected.txt`. The atomic-step models read and write such state in ONE critical section;
+a value computed from a read under the lock and stored after it was released (a lazily filled cache) is a lost
+update the models cannot exhibit and the race detector does not see. -/
+theorem c17_fields_written_under_lock :
+    FV.Locks.writesGuarded [4] FV.Generated.Locks.unguardedUnexpected = true := by decide +kernel
+
+/-- **Locks held across calls are released by defer** (regenerated from lib/go on every check): no function calls
+anything while it holds a mutex that only a hand-written `Unlock` releases, except the hand-classified callees that
+cannot panic (`manual:` lines of `known/locks_unguarded_expected.txt`). The models release a mutex on EVERY exit of
+a critical section, a panic included — the servers recover panics of user-supplied code and keep serving, so a
+hand-released mutex would stay locked and every later request behind it would go unanswered. -/
+theorem c17_locks_released_by_defer :
+    FV.Locks.releasedByDefer [4] FV.Generated.Locks.manualUnexpected = true := by decide +kernel
 
 end FV.C17
